@@ -64,6 +64,7 @@ def main():
               "* `params/patterns.rs` 237, 244-246: `is_fallback()` (never called by the crate itself) and a closing brace.",
               "* `resolvers/default.rs` 83, 96: `_ => None` arms that are unreachable when every primitive feature is enabled (cfg A).",
               "* `resolvers/ring.rs` 59-65: `next_u32` / `next_u64` of the ring RNG (snow only ever calls `fill_bytes`).",
+              ""]
     with open(os.path.join(V, "REACH.md"), "w") as fh:
         fh.write("\n".join(lines) + "\n")
     print("\n".join(lines))
